@@ -3,7 +3,7 @@
    Gen/C04Concat.v), is the model's [sconcat] (Model/Paradigm.v) that every adapter of
    newRunnablePacker, every Collect view and the C04 theorems use: read to io.EOF, the first
    error item wins, no chunk = error, one chunk = that chunk, else ConcatItems. *)
-From Eino Require Import Base.Util Model.Paradigm Model.StreamOps Model.StreamGenLib.
+From Eino Require Import Base.Util Model.Paradigm Model.StreamOps Model.C04GenLib.
 From Eino Require Gen.C04Concat.
 
 Lemma res_match_id : forall {A} (r : res A),
